@@ -69,6 +69,9 @@ type catCase struct {
 	LogError    bool // pass --logLevel error (what the repository's own dcat tests do)
 	Clean       bool // generated from the clean domain (known-finding triggers excluded by construction)
 	Classes     []string
+	// Poison (SSH only): before the file is read, the same server process is asked for a damaged compressed file (cut in
+	// the middle of a line), so that the read of the healthy file follows a read that ended in an error
+	Poison string `json:",omitempty"` // "" | .gz | .zst
 }
 
 var mValues = []int{8, 8, 64, 64, 1024, 4096, 40000, 1048576}
@@ -82,6 +85,9 @@ func genCat(ssh bool, clean bool) func(t *rapid.T) catCase {
 			LogError:    rapid.Bool().Draw(t, "logerror")}
 		if clean {
 			cc.Content = cleanDots(cc.Content, m)
+		}
+		if ssh {
+			cc.Poison = rapid.SampledFrom([]string{"", "", ".gz", ".zst"}).Draw(t, "poison")
 		}
 		return cc
 	}
@@ -234,6 +240,24 @@ func evalCat(c catCase) lib.Outcome {
 	}
 	if c.LogError {
 		args = append(args, "--logLevel", "error")
+	}
+	if c.SSH && c.Poison != "" {
+		// 400 lines of 60 pseudo-random printable bytes compress badly, so half of the compressed bytes end inside a line
+		var raw bytes.Buffer
+		x := uint32(id)*2654435761 + 12345
+		for i := 0; i < 400; i++ {
+			for j := 0; j < 60; j++ {
+				x = x*1664525 + 1013904223
+				raw.WriteByte(byte('!' + (x>>24)%90))
+			}
+			raw.WriteByte('\n')
+		}
+		if damaged, err := compress(raw.Bytes(), c.Poison); err == nil && len(damaged) > 200 {
+			bad := filepath.Join(dir, "damaged.log"+c.Poison)
+			os.WriteFile(bad, damaged[:len(damaged)/2], 0o644)
+			lib.RunClient("dcat", append(append([]string{}, args...), bad), lib.RunOpts{Home: home, Timeout: 30 * time.Second})
+			o.Classes = append(o.Classes, "after-failed-read"+c.Poison)
+		}
 	}
 	args = append(args, file)
 	r := lib.RunClient("dcat", args, lib.RunOpts{Home: home, Timeout: 90 * time.Second})
